@@ -184,6 +184,50 @@ func (c *Cluster) sigRepeated(a *Actor, msg []byte, k int) hotstuff.QuorumSignat
 	}
 }
 
+// sigInterleaved builds a multi-signature from (signer, signature bytes) entries in the given order (ECDSA/EdDSA only):
+// used for signer lists that repeat a signer non-adjacently, e.g. [a, h, a].
+func (c *Cluster) sigInterleaved(ids []hotstuff.ID, raws [][]byte) hotstuff.QuorumSignature {
+	switch c.W.Scheme {
+	case crypto.NameECDSA:
+		var sigs []*crypto.ECDSASignature
+		for i, id := range ids {
+			sigs = append(sigs, crypto.RestoreECDSASignature(raws[i], id))
+		}
+		return crypto.NewMulti(sigs...)
+	case crypto.NameEDDSA:
+		var sigs []*crypto.EDDSASignature
+		for i, id := range ids {
+			sigs = append(sigs, crypto.RestoreEDDSASignature(raws[i], id))
+		}
+		return crypto.NewMulti(sigs...)
+	}
+	return nil
+}
+
+// padded returns q entries over msg: the actor's own signature and the given foreign genuine signatures, with the own
+// signature repeated in between and at the end ([a, h, a, ...]) - fewer than q distinct signers.
+func (c *Cluster) padded(a *Actor, msg []byte, foreign []hotstuff.QuorumSignature, q int) hotstuff.QuorumSignature {
+	own, err := a.M.Auth.Sign(msg)
+	if err != nil || len(foreign) == 0 {
+		return nil
+	}
+	var ids []hotstuff.ID
+	var raws [][]byte
+	k := 0
+	for len(ids) < q {
+		ids = append(ids, a.ID)
+		raws = append(raws, own.ToBytes())
+		if len(ids) < q && k < len(foreign) && k < q-2 {
+			var fid hotstuff.ID
+			foreign[k].Participants().ForEach(func(id hotstuff.ID) { fid = id })
+			ids = append(ids, fid)
+			raws = append(raws, foreign[k].ToBytes())
+			k++
+		}
+	}
+	return c.sigInterleaved(ids, raws)
+}
+
 // ByzAct performs one crafted action of a scripted actor.
 func (c *Cluster) ByzAct(a *Actor, which string) {
 	st := a.Byz
@@ -295,6 +339,15 @@ func (c *Cluster) ByzAct(a *Actor, which string) {
 		own := hotstuff.NewBlock(hq.BlockHash(), hq, c.byzBatch(a), view, a.ID)
 		c.registerByzBlock(a, own)
 		sig := c.sigRepeated(a, own.ToBytes(), q)
+		if c.Rng.Bool() && len(st.votes) > 0 {
+			// a block that got one genuine honest vote: that vote padded with the own signature, [a, h, a]
+			pc := st.votes[len(st.votes)-1]
+			if b, ok := c.W.Blocks.Get(pc.BlockHash()); ok && pc.Signer() != a.ID && pc.Signature() != nil && pc.Signature().Participants().Len() == 1 {
+				if ps := c.padded(a, b.ToBytes(), []hotstuff.QuorumSignature{pc.Signature()}, q); ps != nil {
+					own, sig = b, ps
+				}
+			}
+		}
 		if sig == nil {
 			return
 		}
@@ -322,7 +375,16 @@ func (c *Cluster) ByzAct(a *Actor, which string) {
 	case "newview-forged-tc":
 		v := view + hotstuff.View(c.Rng.Range(0, 4))
 		var sig hotstuff.QuorumSignature
-		if c.Rng.Bool() || len(st.timeouts) == 0 {
+		if c.Rng.Chance(1, 3) && len(st.timeouts) > 0 {
+			// sub-quorum padded with the own signature, non-adjacent repeats: [a, h, a]
+			t := st.timeouts[len(st.timeouts)-1]
+			if t.ID != a.ID && t.ViewSignature != nil && t.ViewSignature.Participants().Len() == 1 {
+				v = t.View
+				sig = c.padded(a, v.ToBytes(), []hotstuff.QuorumSignature{t.ViewSignature}, q)
+			}
+		}
+		if sig != nil {
+		} else if c.Rng.Bool() || len(st.timeouts) == 0 {
 			sig = c.sigRepeated(a, v.ToBytes(), q)
 		} else {
 			// a real timeout certificate relabelled with another view
@@ -362,7 +424,34 @@ func (c *Cluster) ByzAct(a *Actor, which string) {
 		case 3: // genuine QC
 			si.SetQC(hq)
 		}
-		switch c.Rng.Intn(4) {
+		switch c.Rng.Intn(5) {
+		case 4: // a FRESH genuine TC, assembled from the timeout messages seen for the newest view that has a quorum of them
+			byView := map[hotstuff.View]map[hotstuff.ID]hotstuff.TimeoutMsg{}
+			for _, t := range st.timeouts {
+				if byView[t.View] == nil {
+					byView[t.View] = map[hotstuff.ID]hotstuff.TimeoutMsg{}
+				}
+				byView[t.View][t.ID] = t
+			}
+			var best hotstuff.View
+			for v, m := range byView {
+				if len(m)+1 >= q && v > best {
+					best = v
+				}
+			}
+			if best > 0 {
+				m := byView[best]
+				if _, ok := m[a.ID]; !ok {
+					m[a.ID] = signTimeout(best, siQC)
+				}
+				var tms []hotstuff.TimeoutMsg
+				for _, t := range m {
+					tms = append(tms, t)
+				}
+				if tc, err := a.M.Auth.CreateTimeoutCert(best, tms); err == nil {
+					si.SetTC(tc)
+				}
+			}
 		case 0, 1: // genuine (possibly stale) TC
 			if len(st.tcs) > 0 {
 				si.SetTC(st.tcs[c.Rng.Intn(len(st.tcs))])
